@@ -6,6 +6,8 @@
 
 #define  SCALAR_REFLECT_TYPE STR_CONCAT(SCALAR_NAME, Type)
 
+#define  PARSE_STORED STR_CONCAT(parse_, STORED_TYPE)
+
 #define  NEW_SCALAR STR_CONCAT(New,  SCALAR_NAME)
 #define NULL_SCALAR STR_CONCAT(Null, SCALAR_NAME)
 
